@@ -166,6 +166,8 @@ def domain(prog, run, fi):
                 n_inst += 1
                 if not guarded:
                     guarded = _under_where_guard(prog, fi, n, den)
+                if not guarded:
+                    guarded = _nan_absorbed(prog, fi, n)
                 run.ob("R-domain", fi.qual, "quotient by a per-component magnitude guarded", guarded,
                        f"`{astq.src(n, 70)}`" + ("" if guarded else ": 0/0 = NaN when a component is zero"), witness="unguarded", file=f, node=n)
     if n_inst == 0:
@@ -240,6 +242,28 @@ def mpd_vector(prog, run, fi):
     run.ob("R-mpd-vector", fi.qual, "all elements read belong to one right singular vector, both components used", ok,
            "reads (vector, component): " + ", ".join(f"`{astq.src(n)}`->({v},{c})" for n, _, v, c in reads) + ("" if ok else " - components of DIFFERENT singular vectors are combined"),
            witness=str(sorted((v, c) for _, _, v, c in reads)), file=f, node=reads[0][0])
+
+
+NAN_ABSORBING = ("numpy.fmin", "numpy.fmax", "numpy.nan_to_num")     # fmin(nan, c) = c; minimum / clip hand the NaN on
+
+
+def _nan_absorbed(prog, fi, node):
+    """the quotient - itself, or through the one name it is bound to - is only ever read as the first argument of a function that replaces a
+    NaN by a number (np.fmin(q, 1.0), np.nan_to_num(q)): the 0/0 of a zero component never leaves the routine"""
+    pm = astq.parent_map(fi.node)
+
+    def absorbed_use(x):
+        par = pm.get(x)
+        return isinstance(par, ast.Call) and astq.callee_name(prog, fi, par) in NAN_ABSORBING and par.args and par.args[0] is x
+    if absorbed_use(node):
+        return True
+    par = pm.get(node)
+    if isinstance(par, ast.Assign) and par.value is node and len(par.targets) == 1 and isinstance(par.targets[0], ast.Name):
+        t = par.targets[0].id
+        stores = [x for x in ast.walk(fi.node) if isinstance(x, ast.Name) and x.id == t and isinstance(x.ctx, ast.Store)]
+        loads = [x for x in ast.walk(fi.node) if isinstance(x, ast.Name) and x.id == t and isinstance(x.ctx, ast.Load)]
+        return len(stores) == 1 and bool(loads) and all(absorbed_use(x) for x in loads)
+    return False
 
 
 def _under_where_guard(prog, fi, node, den):
